@@ -57,6 +57,11 @@ def _xv_value(kind, enc, version=0):
     if kind == "array":
         import numpy as np
         return np.array([num, num + 1.0, num + 2.0])
+    if kind == "iarray":
+        # an integer-typed array (a missing placeholder cannot be an integer)
+        import numpy as np
+        return np.array([int(num) % 1000 + 1, int(num) % 7 + 1, 3],
+                        dtype=np.int64)
     if kind == "array2":
         import numpy as np
         return np.array([[num, num + 1.0], [num + 2.0, num + 3.0]])
